@@ -39,7 +39,7 @@ pub fn pick_buffer(rng: &mut Rng) -> i64 {
 }
 
 pub fn all_yields() -> Vec<String> {
-    vec!["process.after_parse".into(), "process.after_execute".into(), "app.static_matched".into(), "file_io".into(), "clock".into()]
+    vec!["process.after_parse".into(), "process.after_execute".into(), "app.static_matched".into(), "file_io".into(), "clock".into(), "env".into()]
 }
 
 /// random subset of the stage yield points ("buggify": a random subset of sites per run)
